@@ -225,8 +225,8 @@ func checkC19(c *Ctx) {
 	}
 	builders = real
 	sort.Slice(builders, func(i, j int) bool { return builders[i].fn.String() < builders[j].fn.String() })
-	if len(builders) < 9 {
-		c.R.Break("found %d HTTP request builders, expected at least 9", len(builders))
+	if len(builders) < 5 { // (9 on the reference tree; shared request helpers legitimately reduce the count)
+		c.R.Break("found %d HTTP request builders, expected at least 5", len(builders))
 	}
 	var names []string
 	for _, b := range builders {
@@ -475,6 +475,28 @@ func c19SessionKept(c *Ctx, builders []*builder) {
 			for _, g := range deps {
 				if bin, ok := g.If.Cond.(*ssa.BinOp); ok && (fieldLoadNamed(bin.X, "StatusCode") || fieldLoadNamed(bin.Y, "StatusCode")) {
 					onStatus = true
+				}
+				// the verdict of a helper that is handed the answer and tests its status (err := statusError(resp))
+				var verdict ssa.Value = g.If.Cond
+				if v, _, ok := nilCompare(g.If.Cond); ok {
+					verdict = v
+				}
+				if hc, ok := unspill(verdict).(*ssa.Call); ok {
+					if sc := ir.StaticCallee(hc); sc != nil && c.P.IsLib(sc) {
+						takesResp := false
+						for _, a := range hc.Call.Args {
+							if ir.TypeStr(a.Type()) == "*net/http.Response" {
+								takesResp = true
+							}
+						}
+						if takesResp {
+							ir.EachInstr(sc, func(_ *ssa.BasicBlock, _ int, hin ssa.Instruction) {
+								if bin, ok := hin.(*ssa.BinOp); ok && (fieldLoadNamed(bin.X, "StatusCode") || fieldLoadNamed(bin.Y, "StatusCode")) {
+									onStatus = true
+								}
+							})
+						}
+					}
 				}
 			}
 			_, deferred := in.(*ssa.Defer)
@@ -1612,6 +1634,23 @@ func c19HandlerFactory(c *Ctx) {
 					if isFactoryCall(x) {
 						nFactory++
 						return
+					}
+					// a helper whose every result is judged the same way (newConfiguredHTTPReqHandler → factory call)
+					if sc := ir.StaticCallee(x); sc != nil && c.P.IsLib(sc) && sc.Blocks != nil && d < 3 {
+						any := false
+						for _, b := range sc.Blocks {
+							if ret, ok := b.Instrs[len(b.Instrs)-1].(*ssa.Return); ok && b != sc.Recover && len(ret.Results) > 0 {
+								any = true
+								judge(ir.Results(ret)[0], d+1)
+							}
+						}
+						if any && why == "" {
+							return
+						}
+						if why != "" {
+							why = "the result of " + ir.CallName(x) + ", which returns " + why
+							return
+						}
 					}
 					why = "the result of " + ir.CallName(x) + ", called directly"
 				case *ssa.MakeInterface:
